@@ -257,6 +257,7 @@ pub fn swarm(prop: &str, seed: u64) -> (GenCfg, Suffix, Shape) {
         "C11" if seed % 2 == 1 => {
             // fault-position enumeration over a fault-free schedule
             shape = Shape::FaultPositions;
+            c.w_op[OW_BUILDER] = 1;
             c.events = r.range(6, 30);
             c.w_event[EW_FAULT] = 0;
             c.w_op[OW_PANIC] = 0;
@@ -266,6 +267,7 @@ pub fn swarm(prop: &str, seed: u64) -> (GenCfg, Suffix, Shape) {
             c.max_objs = c.max_objs.min(16);
         }
         "C11" => {
+            c.w_op[OW_BUILDER] = 2;
             c.w_event[EW_FAULT] = 4;
             c.w_op[OW_PANIC] = 1;
             c.w_cb = [3, 3, 1, 1, 1];
